@@ -424,7 +424,10 @@ class Exec:
             if info is not None: return ModuleRef(base + '.' + nm, info)
             info = repo.module_by_dotted(base)
             if info is not None:
-                return self.lookup_module(info.relpath, nm)
+                try: return self.lookup_module(info.relpath, nm)
+                except Unsupported:
+                    if info.relpath.endswith('__init__.py'): return BuiltinRef(base + '.' + nm)      # a compiled (Cython) submodule of a package: outside reach
+                    raise
             return BuiltinRef(base + '.' + nm)       # a name imported from outside the repository
         if name in BUILTIN_EXC: return ExcClass(name)
         if name in BUILTINS: return BuiltinRef(name)
@@ -1594,7 +1597,11 @@ class Exec:
                         if 'default' in kws: v_ = self.eval(kws['default'])
                         elif 'default_factory' in kws and isinstance(kws['default_factory'], ast.Name) and kws['default_factory'].id in ('list', 'dict', 'set', 'tuple', 'frozenset'):
                             v_ = V(TTuple([]), [])
-                        elif 'default_factory' in kws: v_ = self.call(self.eval(kws['default_factory']), [], {}, None)
+                        elif 'default_factory' in kws:
+                            try: v_ = self.call(self.eval(kws['default_factory']), [], {}, None)
+                            except Unsupported:
+                                if isinstance(fty, TRef) and fty.universal: v_ = V(fty, fresh('pyobj', sort_of(fty)))      # a factory outside the subset, stored where any object is accepted: opaque
+                                else: raise
                         else: raise Unsupported('dataclass %s: field %s without default' % (cref.name, nm))
                     elif st.value is not None:
                         try: v_ = self.eval(st.value)
@@ -1991,7 +1998,6 @@ class Exec:
     def exec_stmt(self, st):
         self.cur_loc = getattr(st, 'lineno', None)
         meth = getattr(self, 's_' + type(st).__name__, None)
-        if meth is None: raise Unsupported('statement %s' % type(st).__name__)
         c = self.frame.get('contract')
         if c is not None and c.abstract:
             head = ast.unparse(st).split('\n')[0].strip()
@@ -2023,6 +2029,7 @@ class Exec:
                     for e_ in ab.get('ensures', []): self.assume(self.eval_spec(e_))
                 finally: self.old = saved_old_
                 return
+        if meth is None: raise Unsupported('statement %s' % type(st).__name__)
         meth(st)
         if c is not None and c.ghost_after and isinstance(st, (ast.Expr, ast.Assign, ast.AugAssign, ast.Pass)):
             # ghost updates attached (in the sidecar) to a statement, identified by its normalised source text
